@@ -84,3 +84,9 @@ Definition str_GetStreamModuleAccount (w : kworld) : go_modacc := Some STREAM_MA
 Definition bank_GetAllBalances (w : kworld) (a : addr) : list go_coin :=
   map (fun kv => (snd (fst kv), snd kv)) (filter (fun kv => (fst (fst kv) =? a) && (0 <? snd kv)) (bal (kw_bank w))).
 Definition acc_SetModuleAccount (w : kworld) (m : go_modacc) : outcome (kworld * unit) := Ok (w, tt).
+
+(* ---- genesis export (keeper/genesis.go ExportGenesis through IterateAllStreams) ---- *)
+(* what IterateAllStreams visits, in order: every stored stream with the (receiver, sender) parsed from its key
+   (C18: the parse gives back exactly the pair the key was built from); the model keeps the streams in that order *)
+Definition str_AllStreams (w : kworld) : list go_StreamExport :=
+  map (fun kv => mk_go_StreamExport (fst (fst kv)) (snd (fst kv)) (to_go_stream (snd kv))) (s_streams (kw_str w)).
